@@ -36,7 +36,7 @@ def run(chk):
         chk.evaluations += 1
         t = c.split()
         chk.count(t[0])
-        if a.startswith(("PANIC", "CRASH", "TIMEOUT")):
+        if a.startswith(("PANIC", "CRASH", "TIMEOUT", "HANG")):
             chk.monitor_fail("auth layer panicked", dict(case=c, impl=a))
             continue
         outs, inv = a.rsplit(" invoked=", 1) if " invoked=" in a else ("", a.split("invoked=")[1])
